@@ -1,5 +1,208 @@
-(* C03 — placeholder while the proofs are being written *)
-From Coq Require Import List NArith.
+(* C03 — an agent commits a blob only after every piece is verified.
+   Statements only; every proof is `exact <lemma from Proof/C03.v or Proof/AgentTorrent.v>`.
+
+   Setting.  [c] is a metainfo (piece length, blob length, piece sums), [ws] any list of
+   WritePiece calls (index, declared length, the chunks the reader delivers, the streamed
+   checksum), [R c ws sched] the state after ANY interleaving [sched] (a list of caller ids, one
+   atomic step each: lock region / atomic op / file-store call of torrent.go:203-250) started
+   on a fresh download.  No bound on the number of callers, pieces, sizes or steps.
+   Hypotheses: [wf_cfg] = the metainfo has ceil(L/pl) sums and pl > 0 (core.NewMetaInfo);
+   [all_honest] = the PieceReader contract: no reader streams more than Length() bytes. *)
+From Coq Require Import List NArith ZArith.
 From K.Model Require Import C03.
-Example C03_placeholder : True.
-Proof. exact I. Qed.
+From K.Proof Require Import AgentTorrent.
+From K.Proof Require C03.
+Import ListNotations.
+Import K.Proof.C03.
+
+(* -- a piece is marked complete (in memory or on disk) only when bytes streamed with a checksum
+      equal to the metainfo's sit in its region of the file -- *)
+Theorem C03_complete_verified : forall c ws sched i,
+  wf_cfg c = true -> all_honest ws ->
+  let s := s_st (R c ws sched) in
+  i < npieces c -> st_at s i = Complete \/ nth i (sidecar s) 0%N = 1%N ->
+  verified c ws s i.
+Proof. exact Proof.C03.complete_verified_all. Qed.
+Print Assumptions C03_complete_verified.
+
+(* the checksum as a function, readers with exact Length() (piecereader.Buffer): the file
+   region of a complete piece sums to the metainfo's checksum *)
+Theorem C03_complete_sum : forall (sum : list N -> N) c ws sched i,
+  wf_cfg c = true ->
+  (forall w, In w ws -> Z.of_nat (length (payload w)) = w_decl w) ->
+  (forall w, In w ws -> w_hsum w = sum (payload w)) ->
+  let s := s_st (R c ws sched) in
+  i < npieces c -> st_at s i = Complete ->
+  sum (region c (file s) i) = psum c i.
+Proof. exact Proof.C03.complete_sum. Qed.
+Print Assumptions C03_complete_sum.
+
+(* -- moved to the cache / reported complete only once every piece is complete and verified -- *)
+Theorem C03_commit_all : forall c ws sched,
+  wf_cfg c = true -> all_honest ws ->
+  let s := s_st (R c ws sched) in
+  incache s = true \/ committed s = true ->
+  forall i, i < npieces c -> st_at s i = Complete /\ verified c ws s i.
+Proof. exact Proof.C03.commit_all. Qed.
+Print Assumptions C03_commit_all.
+
+(* -- the committed file is then byte-identical to the blob, under collision-freedom of the
+      piece checksum on the payloads that occur -- *)
+Theorem C03_commit_is_blob : forall (sum : list N -> N) c blob ws sched,
+  wf_cfg c = true -> c_len c = length blob -> all_honest ws ->
+  (forall i, i < npieces c -> psum c i = sum (region c blob i)) ->
+  (forall w, In w ws -> w_hsum w = sum (payload w)) ->
+  (forall w i, In w ws -> i < npieces c -> w_idx w = Z.of_nat i ->
+     sum (payload w) = sum (region c blob i) -> payload w = region c blob i) ->
+  let s := s_st (R c ws sched) in
+  incache s = true \/ committed s = true ->
+  file s = blob /\ (incache s = true -> cache_bytes s = Some blob).
+Proof. exact Proof.C03.commit_is_blob. Qed.
+Print Assumptions C03_commit_is_blob.
+
+(* -- a complete piece is never written again: whatever happens later, it stays complete and
+      its bytes do not change; once in the cache the whole file is frozen -- *)
+Theorem C03_no_write_after_complete : forall c ws sched more i,
+  wf_cfg c = true -> all_honest ws ->
+  let S := R c ws sched in
+  i < npieces c -> st_at (s_st S) i = Complete ->
+  st_at (s_st (run c S more)) i = Complete /\
+  region c (file (s_st (run c S more))) i = region c (file (s_st S)) i.
+Proof. exact Proof.C03.no_write_after_complete. Qed.
+Print Assumptions C03_no_write_after_complete.
+
+Theorem C03_cache_frozen : forall c ws sched more,
+  wf_cfg c = true -> all_honest ws ->
+  let S := R c ws sched in
+  incache (s_st S) = true ->
+  incache (s_st (run c S more)) = true /\ file (s_st (run c S more)) = file (s_st S).
+Proof. exact Proof.C03.cache_frozen. Qed.
+Print Assumptions C03_cache_frozen.
+
+(* -- rejections: a call that ends (or is still on its way to ending) in index / length /
+      complete / conflict never changed the shared state with any of its steps ... -- *)
+Theorem C03_reject_no_effect : forall c S a k b,
+  may_reject (pc_of (run c S (a ++ k :: b)) k) = true ->
+  s_st (sys_step c (run c S a) k) = s_st (run c S a).
+Proof. exact Proof.C03.reject_no_effect. Qed.
+Print Assumptions C03_reject_no_effect.
+
+(* ... a call with an index outside [0,n) or a length different from the piece's can only return
+   the index / length error ... *)
+Theorem C03_invalid_rejected : forall c ws sched w r,
+  wf_cfg c = true -> all_honest ws ->
+  In (mkth w (PDone r)) (s_ths (R c ws sched)) ->
+  (w_idx w < 0 \/ Z.of_nat (npieces c) <= w_idx w \/ w_decl w <> Z.of_nat (plen c (Z.to_nat (w_idx w))))%Z ->
+  r = RBadIndex \/ r = RBadLength.
+Proof. exact Proof.C03.invalid_rejected. Qed.
+Print Assumptions C03_invalid_rejected.
+
+(* ... success means the streamed checksum matched and the piece is complete; a write error means
+   the checksum did not match (a good payload is never refused that way); the move never fails *)
+Theorem C03_result_meaning : forall c ws sched w r,
+  wf_cfg c = true -> all_honest ws ->
+  In (mkth w (PDone r)) (s_ths (R c ws sched)) ->
+  match r with
+  | ROk => exists i, i < npieces c /\ w_idx w = Z.of_nat i /\ w_hsum w = psum c i /\
+                     st_at (s_st (R c ws sched)) i = Complete
+  | RWriteErr => exists i, i < npieces c /\ w_idx w = Z.of_nat i /\ w_hsum w <> psum c i
+  | RMoveErr => False
+  | _ => True
+  end.
+Proof. exact Proof.C03.result_meaning. Qed.
+Print Assumptions C03_result_meaning.
+
+Theorem C03_accepted_payload_is_blob : forall c blob ws sched w,
+  wf_cfg c = true -> c_len c = length blob -> all_honest ws -> coll_free c blob ws ->
+  In (mkth w (PDone ROk)) (s_ths (R c ws sched)) ->
+  exists i, i < npieces c /\ w_idx w = Z.of_nat i /\ payload w = region c blob i.
+Proof. exact Proof.C03.accepted_payload_is_blob. Qed.
+Print Assumptions C03_accepted_payload_is_blob.
+
+(* -- what a peer is served (GetPieceReader) is the blob's piece -- *)
+Theorem C03_served_piece_is_blob : forall c blob ws sched i d,
+  wf_cfg c = true -> c_len c = length blob -> all_honest ws -> coll_free c blob ws ->
+  get_piece c (s_st (R c ws sched)) i = Some d -> d = region c blob i.
+Proof. exact Proof.C03.served_piece_is_blob. Qed.
+Print Assumptions C03_served_piece_is_blob.
+
+(* -- bitfield and progress match the verified pieces: numComplete never exceeds the number of
+      complete pieces, lags by at most the callers in flight, is exact when nobody is inside
+      WritePiece; Bitfield() counts exactly the complete pieces; BytesDownloaded() is
+      min(numComplete * pieceLength, length) -- *)
+Theorem C03_progress_accounting : forall c ws sched,
+  wf_cfg c = true -> all_honest ws ->
+  let S := R c ws sched in
+  let done := count_st Complete (status (s_st S)) in
+  ncomp (s_st S) <= done /\ done <= ncomp (s_st S) + length ws /\
+  (idle S = true -> ncomp (s_st S) = done) /\
+  popcount (bitfield (s_st S)) = done /\
+  bytes_downloaded c (s_st S) = Nat.min (ncomp (s_st S) * c_pl c) (c_len c).
+Proof. exact Proof.C03.progress. Qed.
+Print Assumptions C03_progress_accounting.
+
+(* -- no commit is lost: when every caller has returned and every piece is complete, the file is
+      in the cache and the torrent reports complete (two callers finishing the last two pieces
+      concurrently cannot both miss numComplete == n) -- *)
+Theorem C03_commit_not_lost : forall c ws sched,
+  wf_cfg c = true -> all_honest ws ->
+  let S := R c ws sched in
+  idle S = true -> (forall i, i < npieces c -> st_at (s_st S) i = Complete) ->
+  committed (s_st S) = true /\ incache (s_st S) = true.
+Proof. exact Proof.C03.commit_not_lost_all. Qed.
+Print Assumptions C03_commit_not_lost.
+
+(* -- NewTorrent on the same store while nobody is writing restores exactly the same state
+      (used by the driver's reopen steps; shared with C04) -- *)
+Theorem C03_reopen_is_identity : forall c ws sched,
+  wf_cfg c = true -> all_honest ws ->
+  let S := R c ws sched in
+  idle S = true ->
+  new_torrent c (file (s_st S)) (Some (sidecar (s_st S))) (incache (s_st S)) = s_st S.
+Proof. exact Proof.C03.reopen_is_identity. Qed.
+Print Assumptions C03_reopen_is_identity.
+
+(* -- executable form: the oracle evaluated on the implementation's traces holds on every
+      macro-step history of the model -- *)
+Theorem C03_check_sound : forall c blob ws hs,
+  let S0 := start (init_fresh c) ws in
+  hist_ok c S0 hs = true ->
+  idle (fst (hrun c S0 hs)) = true ->
+  C03_check c blob ws (snd (hrun c S0 hs)) (observe_state c (fst (hrun c S0 hs)))
+            (fin_of c (fst (hrun c S0 hs))) = true.
+Proof. exact Proof.C03.check_sound. Qed.
+Print Assumptions C03_check_sound.
+
+(* -- the reader contract is necessary: a reader whose Length() understates its stream gets a
+      file different from the blob committed (seed case `seed-lying-reader` replays this on the
+      real code) -- *)
+Theorem C03_lying_reader_refuted :
+  let s := s_st (R lie_cfg lie_ws lie_sched) in
+  wf_cfg lie_cfg = true /\ coll_free lie_cfg lie_blob lie_ws /\
+  committed s = true /\ incache s = true /\ file s <> lie_blob /\
+  ~ all_honest lie_ws.
+Proof. exact Proof.C03.lying_reader_refuted. Qed.
+Print Assumptions C03_lying_reader_refuted.
+
+(* -- non-vacuity: the hypotheses hold of a concrete history with a conflict, a corrupt payload,
+      a retry, an invalid index, a wrong length and two callers reaching the commit -- *)
+Theorem C03_nonvacuous :
+  wf_cfg lie_cfg = true /\ c_len lie_cfg = length lie_blob /\ all_honest nv_ws /\
+  coll_free lie_cfg lie_blob nv_ws /\
+  (let S := R lie_cfg nv_ws nv_sched in
+   idle S = true /\ committed (s_st S) = true /\ cache_bytes (s_st S) = Some lie_blob /\
+   map t_pc (s_ths S) = [PDone ROk; PDone RConflict; PDone RWriteErr; PDone ROk; PDone RBadIndex; PDone RBadLength]) /\
+  (let S := R lie_cfg nv_ws (removelast nv_sched) in
+   idle S = false /\ incache (s_st S) = true /\ committed (s_st S) = false).
+Proof. exact Proof.C03.nonvacuous. Qed.
+Print Assumptions C03_nonvacuous.
+
+Example C03_nonvacuous_check :
+  let c := lie_cfg in
+  let hs := [HAdv 0; HAdv 0; HAdv 0; HAdv 0; HAdv 0; HAdv 0; HAdv 1; HAdv 2; HAdv 2; HAdv 2; HAdv 2; HAdv 2; HReopen;
+             HAdv 3; HAdv 3; HAdv 3; HAdv 4; HAdv 3; HAdv 3; HAdv 5; HAdv 3] in
+  let S0 := start (init_fresh c) nv_ws in
+  geometry_ok c lie_blob = true /\ guards c lie_blob nv_ws = true /\
+  hist_ok c S0 hs = true /\ idle (fst (hrun c S0 hs)) = true /\
+  committed (s_st (fst (hrun c S0 hs))) = true.
+Proof. vm_compute. repeat split; reflexivity. Qed.
